@@ -19,5 +19,7 @@ CONSTANTS
   UseEpochs = TRUE
   OccSet = {FALSE, TRUE}
   MinCleanSegs = 1
+  UseRevReaders = FALSE
+  UseFaults = TRUE
   UseReaders = FALSE
 CHECK_DEADLOCK FALSE
